@@ -4,16 +4,25 @@ From CKT Require Import Common.Base Model.Observables.
 Definition P := mkP.
 Definition plist_beq := list_beq pauli_beq.
 
-(* restrict: (n, qubits, paulis, expected) *)
-Definition chk_restrict (c : nat * list nat * list pauli * res (list pauli)) : bool :=
-  let '(n, qs, ps, e) := c in res_beq plist_beq (restrict n qs ps) e.
+(* restrict: (list[Pauli] path?, num_qubits, qubits, paulis, expected outcome) *)
+Definition chk_restrict (c : bool * nat * list nat * list pauli * res (list pauli)) : bool :=
+  let '(aslist, n, qs, ps, e) := c in res_beq plist_beq (restrict_seq aslist n qs ps) e.
 
-(* decompose_observables: (labels, paulis, expected [(label, paulis)] in dict order) *)
-Definition chk_decompose (c : list nat * list pauli * list (nat * list pauli)) : bool :=
-  let '(labels, ps, e) := c in
-  list_beq (pair_beq Nat.eqb plist_beq)
-    (map (fun t => (fst (fst t), snd t)) (decompose_observables labels ps)) e.
+(* decompose_observables as a public call:
+   (list[Pauli] path?, num_qubits, labels, paulis, expected outcome: Ok [(label, paulis)] in dict order) *)
+Definition chk_decompose (c : bool * nat * list nat * list pauli * res (list (nat * list pauli))) : bool :=
+  let '(aslist, n, labels, ps, e) := c in
+  res_beq (list_beq (pair_beq Nat.eqb plist_beq))
+    (res_map (map (fun t : nat * list nat * list pauli => (fst (fst t), snd t)))
+             (decompose_call aslist n labels ps)) e.
 
-(* expand: (nobs, original qubit ids, final qubit ids, paulis, expected) *)
-Definition chk_expand (c : nat * list nat * list nat * list pauli * res (list pauli)) : bool :=
-  let '(nobs, oq, fq, ps, e) := c in res_beq plist_beq (expand nobs oq fq ps) e.
+(* expand: (nobs, original qubit ids, final qubit ids, paulis, expected outcome,
+            why : None            = the implementation raised a ValueError that is NOT one of the two documented
+                                    refusals raised by the package itself (never accepted),
+                  Some None       = no refusal,
+                  Some (Some r)   = the documented refusal r with the numbers printed in its message) *)
+Definition chk_expand
+  (c : nat * list nat * list nat * list pauli * res (list pauli) * option (option refusal)) : bool :=
+  let '(nobs, oq, fq, ps, e, why) := c in
+  res_beq plist_beq (expand nobs oq fq ps) e &&
+  option_beq (option_beq refusal_beq) (Some (expand_refusal nobs oq fq)) why.
